@@ -41,10 +41,13 @@ func genHistory(r *RNG, n int) []Op {
 	for i := 0; i < n; i++ {
 		var op Op
 		switch r.Intn(10) {
-		case 0, 1, 2, 3:
-			op = GenStillOp(r, 1, 80, false)
+		case 0:
+			ops = append(ops, genAnimEncOp(r))
+			continue
+		case 1, 2, 3:
+			op = GenStillOp(r, 1, 80, true)
 		default:
-			op = GenStillOp(r, 1, 80, false)
+			op = GenStillOp(r, 1, 80, r.Pct(40))
 			// collide with the base size: same macroblock grid, maybe different pixel size
 			switch r.Intn(4) {
 			case 0:
@@ -64,9 +67,12 @@ func genHistory(r *RNG, n int) []Op {
 				op.Img.H = 1
 			}
 		}
-		if r.Pct(25) && i > 0 {
+		if r.Pct(25) && i > 0 && ops[len(ops)-1].Kind != "animenc" {
 			// same image and codec as an earlier op, different options
 			prev := ops[r.Intn(len(ops))]
+			if prev.Kind == "animenc" {
+				prev = op
+			}
 			op.Img = prev.Img
 			if op.Opt.Lossless != prev.Opt.Lossless {
 				op.Opt.Lossless = prev.Opt.Lossless
@@ -128,13 +134,13 @@ func (propC11) Execute(pp any, x *X) *Violation {
 	p := pp.(*C11Params)
 	inputs := make([][]byte, len(p.Ops))
 	for i, op := range p.Ops {
-		if op.Kind != "enc" {
+		if needsInput(op) {
 			inputs[i] = FileFor(op.Img, op.Opt)
 		}
 	}
 	inputs2 := make([][]byte, len(p.Second))
 	for i, op := range p.Second {
-		if op.Kind != "enc" {
+		if needsInput(op) {
 			inputs2[i] = FileFor(op.Img, op.Opt)
 		}
 	}
